@@ -414,6 +414,7 @@ def check(ctx):
     ctx.rule("R2", "every BoolOp the grammar builds from and/or/&&/|| passes through _mark_boolop_subproc_values, which tags each direct subprocess operand with in_boolop=True", floor=5)
     ctx.rule("R3", "wrapper coverage: raising helpers = all helpers minus !(); value statements covered; only the outermost chain is wrapped (flag restored in finally); the wrapper pass runs on every transformed parse", floor=6)
     ctx.rule("R4", "token -> helper -> capture kind agree across grammar, built_ins and specs; in_boolop is forwarded; non-pipeline helpers check the last pipeline after running", floor=14)
+    ctx.rule("R8", "the raise switches are the user's: no code of xonsh sets, swaps or overlays `$XONSH_SUBPROC_RAISE_ERROR` (the statement-level switch), and `$XONSH_SUBPROC_CMD_RAISE_ERROR` / `$RAISE_SUBPROC_ERROR` are written only by the public subprocess API (run / check_call ask for it by contract) and the script-mode default table - a scope that turns the switch off around a body (a string alias, a hook) lets the statements after a failing one run and the caller see success", floor=3)
     ctx.rule("R7", "the pipeline the raise decision falls back to is the one the statement ran: helpers that return a string / None / a list ($(), $[], @$()) are judged through XSH.lastcmd, so on every path of _run_specs that ends the pipeline and returns something else than the pipeline, `lastcmd` is (re)assigned to that pipeline *after* it was ended - a callable-alias stage runs nested commands while it is being ended, and each of them sets lastcmd", floor=2)
     ctx.rule("R6", "every pipeline that is ended for the first time reaches the per-command raise decision (_raise_subproc_error) on every normal path - also one whose command could not be started", floor=1)
     ctx.rule("R5", "XSH.exit is honoured before and after a pipeline; an exception escaping a script / -c run yields a non-zero exit status; truthiness is returncode == 0 of the last stage", floor=5)
@@ -803,11 +804,59 @@ def check(ctx):
     ok, path = ecfg.must_pass([ecfg.entry], lambda m_: m_ in dec, exits=("exit",), skip_edge=ecfg.assume_edges([(a_, False) for a_ in ended_attr]))
     ctx.ob("R6", f"{PL}:CommandPipeline.end", f"every normal path of a first end() (not `{'/'.join(sorted(ended_attr))}`) passes _raise_subproc_error()", ok, key="end|raise-decision-skipped", where=loc(endf), path=ecfg.fmt_path(path) if path else None)
     _lastcmd_is_the_statements_pipeline(ctx)
+    _raise_switches_not_written(ctx)
     # the exit code the chain's truthiness reads is the one the reaper recorded (shared with C06.R9)
     from .c06 import _reaper_records
 
     _reaper_records(ctx, "R5")
 
+
+
+def _raise_switches_not_written(ctx):
+    """R8: who may write the raise switches."""
+    STMT = {"XONSH_SUBPROC_RAISE_ERROR"}
+    CMD = {"XONSH_SUBPROC_CMD_RAISE_ERROR", "RAISE_SUBPROC_ERROR"}
+    # confirmed by reading: the public API's `check` contract and the per-mode default table of main.py
+    ALLOWED_CMD = {"xonsh/api/subprocess.py": "run / check_call / check_output ask for the per-command raise by contract", "xonsh/main.py": "the default table of script / -c mode", "xonsh/environ.py": "definition of the variables and of the deprecated alias (sync)"}
+    n = 0
+    for m in ctx.repo.modules("xonsh", "xontrib", exclude=("xonsh/parser_table.py",), containing=tuple(STMT | CMD)):
+        writes = []
+        for x in ast.walk(m.tree):
+            if isinstance(x, ast.Call):
+                nm = call_name(x) or ""
+                tail = nm.split(".")[-1]
+                if tail in ("swap", "_set_item", "set", "setdefault", "update", "register"):
+                    for k in x.keywords:
+                        if k.arg in STMT | CMD:
+                            writes.append((k.arg, x))
+                    for a in x.args[:2]:
+                        if isinstance(a, ast.Constant) and a.value in STMT | CMD and tail in ("_set_item", "set", "setdefault"):
+                            writes.append((a.value, x))
+                        if isinstance(a, ast.Dict):
+                            for kk in a.keys:
+                                if isinstance(kk, ast.Constant) and kk.value in STMT | CMD:
+                                    writes.append((kk.value, x))
+                for k in x.keywords:
+                    if k.arg in ("overlay", "env") and isinstance(k.value, ast.Dict):
+                        for kk in k.value.keys:
+                            if isinstance(kk, ast.Constant) and kk.value in STMT | CMD:
+                                writes.append((kk.value, x))
+            elif isinstance(x, (ast.Assign, ast.AugAssign, ast.Delete)):
+                tg = x.targets if isinstance(x, (ast.Assign, ast.Delete)) else [x.target]
+                for t in tg:
+                    if isinstance(t, ast.Subscript) and isinstance(t.slice, ast.Constant) and t.slice.value in STMT | CMD and "env" in unparse(t.value).lower():
+                        writes.append((t.slice.value, x))
+            elif isinstance(x, ast.Tuple) and len(x.elts) == 2 and isinstance(x.elts[0], ast.Constant) and x.elts[0].value in STMT | CMD and m.rel == "xonsh/main.py":
+                writes.append((x.elts[0].value, x))
+        for name, site in writes:
+            n += 1
+            if name in STMT:
+                ok, why = m.rel == "xonsh/environ.py", "the statement-level switch is written by xonsh's own code"
+            else:
+                ok, why = m.rel in ALLOWED_CMD, "the per-command switch is written outside the public subprocess API and the mode defaults"
+            ctx.ob("R8", f"{m.rel}", f"`{short(site, 60)}` writes ${name}" + (f" ({ALLOWED_CMD[m.rel]})" if ok and m.rel in ALLOWED_CMD else ""), ok, key=f"{m.rel}|raise-switch-written|{name}", where=loc(site), detail=None if ok else why + ": whatever runs inside that scope no longer stops at a failing statement")
+    if n < 3:
+        raise AnalysisError(f"only {n} writes of the raise switches found (the public API's swaps are expected)")
 
 
 def _lastcmd_is_the_statements_pipeline(ctx):
